@@ -55,6 +55,53 @@ FORMATS = [
     ('safe-template', '$ $$'),
 ]
 
+FIELDS = ('name', 'levelno', 'levelname', 'pathname', 'filename', 'module', 'lineno', 'created',
+          'asctime', 'msecs', 'relativeCreated', 'thread', 'message', 'process', 'funcName',
+          'threadName', 'processName', 'nosuch')
+
+
+def generated_formats():
+    """every record field in every style and spelling, alone and next to the message"""
+    out = []
+    for f in FIELDS:
+        out += [('classic', '%%(%s)s' % f), ('classic', '%%(%s)s|%%(message)s' % f),
+                ('format', '{%s}' % f), ('format', '{%s!r}|{message}' % f),
+                ('template', '${%s}' % f), ('template', '$%s|$message' % f), ('template', '$%s' % f),
+                ('safe-template', '${%s}|${message}' % f), ('safe-template', '$%s|$message' % f),
+                ('safe-template', '$%s' % f)]
+    out += [('classic', '%(levelno)d %(lineno)5d %(msecs)03d'), ('format', '{levelno:d} {lineno:>5} {msecs:03.0f}'),
+            ('template', '$$$levelname ${name}x'), ('safe-template', '$$ $ ${ $levelname')]
+    return out
+
+
+FORMATS2 = generated_formats()
+FORMATTERS = (None, 'vf.dtsupport.PlainFormatter')
+
+
+def ref_render(style, fmt, rec, datefmt=None):
+    """independent reference: what a record must look like in the given style
+    -> text, or raises when the format cannot render an ordinary record"""
+    import string
+    for a, b in ((r'\n', '\n'), (r'\t', '\t'), (r'\b', '\b'), (r'\f', '\f'), (r'\r', '\r')):
+        fmt = fmt.replace(a, b)
+    d = dict(rec.__dict__)
+    d['message'] = rec.getMessage()
+    uses_time = {'classic': '%(asctime)' in fmt, 'format': '{asctime' in fmt,
+                 'template': '$asctime' in fmt or '${asctime}' in fmt,
+                 'safe-template': '$asctime' in fmt or '${asctime}' in fmt}[style]
+    if uses_time:
+        d['asctime'] = logging.Formatter().formatTime(rec, datefmt)
+    else:
+        d.pop('asctime', None)
+    if style == 'classic':
+        return fmt % d
+    if style == 'format':
+        return string.Formatter().vformat(fmt, (), d)
+    if style == 'template':
+        return string.Template(fmt).substitute(d)
+    return string.Template(fmt).safe_substitute(d)
+
+
 _TMP = {}
 
 
@@ -124,8 +171,8 @@ class C20(Harness):
 
     @property
     def bounds(self):
-        return {'quick': {'level_len': 5, 'ops_len': 3, 'formats': len(FORMATS)},
-                'thorough': {'level_len': 7, 'ops_len': 4, 'formats': len(FORMATS)}}
+        return {'quick': {'level_len': 5, 'ops_len': 3, 'formats': len(FORMATS) + 2 * len(FORMATS2)},
+                'thorough': {'level_len': 7, 'ops_len': 4, 'formats': len(FORMATS) + 2 * len(FORMATS2)}}
 
     def budget(self, tier):
         return 170 if tier == 'quick' else 900
@@ -146,6 +193,9 @@ class C20(Harness):
             us.append({'kind': 'pref', 'prefix': pre, 'len': 1 if len(pre) > 4 else 2})
         for i in range(len(FORMATS)):
             us.append({'kind': 'format', 'i': i})
+        for i in range(len(FORMATS2)):
+            for j in range(len(FORMATTERS)):
+                us.append({'kind': 'format', 'i2': i, 'formatter': j})
         for cfg in range(4):
             us.append({'kind': 'ops', 'cfg': cfg, 'n': b['ops_len']})
         for lv in ('-2', '-1', '0', '1', '15', '49', '50', '51', '52', 'WARN', 'Blather', 'nope'):
@@ -244,8 +294,10 @@ class C20(Harness):
 
     def _format(self, unit):
         import ZConfig
-        style, fmt = FORMATS[unit['i']]
-        text = '<logger>\n<logfile>\npath STDOUT\nstyle %s\nformat %s\n</logfile>\n</logger>\n' % (style, fmt)
+        style, fmt = FORMATS[unit['i']] if 'i' in unit else FORMATS2[unit['i2']]
+        fcls = FORMATTERS[unit.get('formatter', 0)]
+        text = '<logger>\n<logfile>\npath STDOUT\ndateformat %%Y|%%H:%%M:%%S\nstyle %s\n%sformat %s\n</logfile>\n</logger>\n' % (
+            style, ('formatter %s\n' % fcls) if fcls else '', fmt.replace('$', '$$'))
         schema = ZConfig.loadSchemaFile(io.StringIO(LOG_SCHEMA))
         try:
             cfg, _ = ZConfig.loadConfigFile(schema, io.StringIO(text))
@@ -257,10 +309,18 @@ class C20(Harness):
         formatter = hf.create_formatter()
         rec = logging.LogRecord('some.logger', logging.WARNING, '/p/file.py', 7, 'message %s', ('arg',), None,
                                 func='fn')
+        rec.created, rec.msecs, rec.relativeCreated = 1700000000.25, 250.0, 12345.5
+        rec2 = logging.makeLogRecord(dict(rec.__dict__))     # a fresh record for the reference
         try:
             out = formatter.format(rec)
         except Exception as e:
             return ('ok', 'FORMAT-RAISED-' + type(e).__name__)
+        try:
+            want = ref_render(style, fmt, rec2, '%Y|%H:%M:%S')
+        except Exception as e:
+            return ('ok', 'ACCEPTED-BUT-REFERENCE-CANNOT-RENDER-' + type(e).__name__, out)
+        if out != want:
+            return ('ok', 'RENDERED-DIFFERENTLY', out, want)
         return ('ok', 'formats', isinstance(out, str))
 
     def _load_loggers(self, cfgno, level='info'):
@@ -345,7 +405,12 @@ class C20(Harness):
                     trace.append(('reopen', len([w for w in loghandler._reopenable_handlers if w() is not None])))
                 elif op == 2:
                     loghandler.closeFiles()
-                    trace.append(('close', len(loghandler._reopenable_handlers)))
+                    still_open = 0
+                    for h in logging.getLogger(name).handlers:
+                        st = getattr(h, 'stream', None)
+                        if isinstance(h, logging.FileHandler) and st is not None and not st.closed:
+                            still_open += 1
+                    trace.append(('close', len(loghandler._reopenable_handlers) + 100 * still_open))
                 else:
                     # drop every reference to the handlers: logger, factories, configuration
                     lg = logging.getLogger(name)
